@@ -183,6 +183,24 @@ def gen_iseq(rng, tier, budget):
                 by2 = (4096 - length) % 4096 if by == "E" else by
                 yield ("iseq %d %s %d %s" % (bx2, hx(x), by2, hx(y)), dict(family="iseq"))
                 n += 1
+        # two-byte differences: every pair of positions in the last 8 bytes (and a few others),
+        # with equal and with different deltas (word-wise comparisons that combine partial
+        # results can cancel equal deltas)
+        tailpos = list(range(max(0, length - 8), length))
+        others = [0, length // 2] if length > 8 else []
+        for pi in range(len(tailpos)):
+            for pj in range(pi + 1, len(tailpos)):
+                for (d1, d2) in ((1, 1), (0x80, 0x80), (1, 2), (0xFF, 0xFF)):
+                    y = list(x)
+                    y[tailpos[pi]] ^= d1
+                    y[tailpos[pj]] ^= d2
+                    yield ("iseq %d %s %d %s" % (pi % 4, hx(x), (pj * 3) % 8, hx(y)), dict(family="iseq-2diff"))
+        for o in others:
+            if length:
+                y = list(x)
+                y[o] ^= 0x10
+                y[length - 1] ^= 0x10
+                yield ("iseq 0 %s 1 %s" % (hx(x), hx(y)), dict(family="iseq-2diff"))
         # different lengths
         for dl in (1, 2, 5):
             yield ("iseq 0 %s 0 %s" % (hx(x), hx(x + [7] * dl)), dict(family="iseq-len"))
@@ -840,7 +858,7 @@ def gen_iter(rng, tier, budget, count_heavy=False):
     alphabet = "nbsc"
     n = 0
     # exhaustive: haystacks over {needle, filler} of length <= L, all op strings up to length K
-    L, K = (5, 4) if tier == "quick" else (7, 6)
+    L, K = (5, 4) if tier == "quick" else (6, 5)
     seqs = [""]
     for k in range(1, K + 1):
         seqs += ["".join(t) for t in itertools.product(alphabet, repeat=k)]
